@@ -6,7 +6,7 @@ copies), B6 (adjacency symmetry), B7 (pending-change set). All syntax-directed o
 import ast
 from .core import AnalysisError
 from .model import ClassInfo
-from .astutil import single_defs, src, strip_doc, if_chain, terminates
+from .astutil import single_defs, reach_conditions, enclosing_map, src, strip_doc, if_chain, terminates
 from .effects import Protocol
 
 MOL = 'chython.containers.molecule:MoleculeContainer'
@@ -732,10 +732,25 @@ def rule_symmetry(ck, repo):
                     ck.decide(mirrored, R, f'{f.qualname}:store[{a}][{b}]', None,
                               f'{f.qualname}: bond stored at [{a}][{b}] but not at [{b}][{a}]: adjacency becomes asymmetric',
                               file=f.file, line=node.lineno, func=f.qualname, construct=src(node))
+                _pm = None
                 for (a, b), node in dels:
                     n += 1
                     mirrored = (b, a) in dpairs or any(r == b for r, _ in rows_del)
                     why = SYM_EXEMPT.get(f.qualname)
+                    # ... and the two halves are removed under the same conditions: a back-reference deleted only on some paths of the loop that
+                    # walks the popped row (`if bond == 8: continue` placed before it) leaves a dangling neighbour on the other paths
+                    partner = next((nd for p_, nd in dels if p_ == (b, a)), None) or next((nd for r, nd in rows_del if r == b), None)
+                    if mirrored and partner is not None and why is None:
+                        if _pm is None:
+                            _pm = enclosing_map(f.node)
+                        c1 = {src(c) for c in reach_conditions(node, f.node, _pm)}
+                        c2 = {src(c) for c in reach_conditions(partner, f.node, _pm)}
+                        extra = sorted(c1 - c2)
+                        n += 1
+                        ck.decide(not extra, R, f'{f.qualname}:del[{a}][{b}]:same-conditions', None,
+                                  f'{f.qualname}: the back-reference `{src(node)}` is removed only when {extra} holds, while its counterpart `{src(partner)[:60]}` is removed always: '
+                                  f'on the other paths the adjacency stays asymmetric (a neighbour row keeps a bond to a deleted / disconnected atom)',
+                                  file=f.file, line=node.lineno, func=f.qualname, construct=src(node))
                     ck.decide(mirrored or why is not None, R, f'{f.qualname}:del[{a}][{b}]', why,
                               f'{f.qualname}: bond removed at [{a}][{b}] but not at [{b}][{a}]', file=f.file, line=node.lineno,
                               func=f.qualname, construct=src(node))
